@@ -283,6 +283,12 @@ func runArmedHist(c *core.Ctx, drv string, ah *armedHist) {
 	s.k("init")
 	s.sql("CREATE DATABASE d1")
 	s.sql("USE d1")
+	if ah.idx%10 == 6 {
+		// page offsets beyond 32 bits in the log records: the data file's
+		// allocation frontier starts just below or beyond 4 GiB (sparse file)
+		s.add(proto.Op{K: "setnextfree", N: int([]int64{1<<32 - 2*4096, 1 << 32, 1<<32 + 5*4096, 1<<33 + 4096}[(ah.idx/10)%4])})
+		c.Count("armed_histories_in_a_data_file_around_or_beyond_4GiB", 1)
+	}
 	var stmtOps []int
 	for i, st := range ah.stmts {
 		stmtOps = append(stmtOps, s.stmt(st))
